@@ -109,7 +109,10 @@ func (in *inst) walk(e ast.Expr, write bool, out *[]acc) {
 			if _, isLit := e.X.(*ast.CompositeLit); isLit {
 				in.walk(e.X, false, out)
 			} else {
-				in.walk(e.X, true, out) // address taken: assume written through
+				// taking an address reads what the address is computed from, not the variable itself; whoever
+				// writes through the pointer is hooked where it does so (calls into code that is not
+				// instrumented are dealt with at the call, below)
+				in.addrOf(e.X, false, out)
 			}
 			return
 		}
@@ -121,9 +124,16 @@ func (in *inst) walk(e ast.Expr, write bool, out *[]acc) {
 		}
 	case *ast.CallExpr:
 		in.walk(e.Fun, false, out)
+		external := in.externalCall(e)
 		for i, a := range e.Args {
 			if i == 0 && in.isAtomicCall(e) {
 				continue // the operand of an atomic operation is not a plain access
+			}
+			if u, ok := unparen(a).(*ast.UnaryExpr); ok && u.Op == token.AND && external {
+				if _, isLit := u.X.(*ast.CompositeLit); !isLit {
+					in.addrOf(u.X, true, out) // a pointer handed to code outside the library: assume written through
+					continue
+				}
 			}
 			in.walk(a, false, out)
 		}
@@ -141,6 +151,79 @@ func (in *inst) walk(e ast.Expr, write bool, out *[]acc) {
 	case *ast.KeyValueExpr:
 		in.walk(e.Value, false, out)
 	}
+}
+
+func unparen(e ast.Expr) ast.Expr {
+	for {
+		p, ok := e.(*ast.ParenExpr)
+		if !ok {
+			return e
+		}
+		e = p.X
+	}
+}
+
+// addrOf records the accesses of &x: with written, x itself counts as written (and what leads to it as
+// read); without, only what the address is computed from is read.
+func (in *inst) addrOf(x ast.Expr, written bool, out *[]acc) {
+	if written {
+		in.walk(x, true, out)
+		return
+	}
+	switch x := unparen(x).(type) {
+	case *ast.Ident:
+	case *ast.SelectorExpr:
+		if sel := in.info.Selections[x]; sel != nil {
+			if sel.Indirect() {
+				in.walk(x.X, false, out)
+			} else {
+				in.addrOf(x.X, false, out)
+			}
+		}
+	case *ast.IndexExpr:
+		if t := in.info.TypeOf(x.X); t != nil {
+			if _, isArr := t.Underlying().(*types.Array); isArr {
+				in.addrOf(x.X, false, out)
+			} else {
+				in.walk(x.X, false, out)
+			}
+		}
+		in.walk(x.Index, false, out)
+	case *ast.StarExpr:
+		in.walk(x.X, false, out)
+	default:
+		in.walk(x, false, out)
+	}
+}
+
+// externalCall reports whether the call may run code that is not part of the library (the standard
+// library, a function value): such code writes through pointers it is given without any hook seeing it.
+// Conversions and calls of the library's own functions and methods are not external.
+func (in *inst) externalCall(e *ast.CallExpr) bool {
+	if tv, ok := in.info.Types[e.Fun]; ok && tv.IsType() {
+		return false
+	}
+	var obj types.Object
+	switch f := unparen(e.Fun).(type) {
+	case *ast.Ident:
+		obj = in.info.Uses[f]
+	case *ast.SelectorExpr:
+		obj = in.info.Uses[f.Sel]
+	}
+	if obj == nil {
+		return true
+	}
+	if _, isFunc := obj.(*types.Func); !isFunc {
+		if _, isBuiltin := obj.(*types.Builtin); isBuiltin {
+			return false
+		}
+		return true // a function value
+	}
+	if obj.Pkg() == nil {
+		return true
+	}
+	path := obj.Pkg().Path()
+	return !(path == "github.com/biogo/biogo" || len(path) > 23 && path[:23] == "github.com/biogo/biogo/")
 }
 
 func (in *inst) stmtAccesses(s ast.Stmt, out *[]acc) {
